@@ -105,7 +105,8 @@ func (ym YamlMap) GetValue(key string) *YamlNode {
 func (ym *YamlMap) setValue(item *YamlKeyValue) {
 	for i := range ym.Items {
 		if ym.Items[i].Key.Value == item.Key.Value {
-			ym.Items[i].Value = item.Value
+			// Replace the item, do not modify it in place, it's shared with the source map.
+			ym.Items[i] = item
 			return
 		}
 	}
